@@ -144,6 +144,61 @@ def dotted_exponent_idiom(ifst, var, defs, tested):
     return None
 
 
+EXPO = rf"e(-0[5-9]|-[1-9]{D}+|\+1[6-9]|\+[2-9]{D}|\+[1-9]{D}{D}+)"
+
+
+def partition_idiom(ifst, expr, tested):
+    """m, e, x = str(val).partition("e"); if e and <test on m>: m += ".0"; return m + e + x
+
+    The `.0` goes to the exponent-form reprs whose mantissa passes the test.  `"." not in m` and
+    `m.lstrip("-").isdigit()` cover every bare mantissa; `m.isdigit()` covers the positive ones only, so a negative
+    bare mantissa (`-1e-06`) is printed as it is."""
+    if not (isinstance(expr, ast.BinOp) and isinstance(expr.op, ast.Add)):
+        return None
+    parts = []
+
+    def flat(e):
+        if isinstance(e, ast.BinOp) and isinstance(e.op, ast.Add):
+            flat(e.left)
+            flat(e.right)
+        else:
+            parts.append(e)
+    flat(expr)
+    if len(parts) != 3 or not all(isinstance(x, ast.Name) for x in parts):
+        return None
+    m, e_, x = (q.id for q in parts)
+    unpack = None
+    for st in iter_stmts(ifst.body):
+        if isinstance(st, ast.Assign) and len(st.targets) == 1 and isinstance(st.targets[0], ast.Tuple) and [getattr(t, "id", None) for t in st.targets[0].elts] == [m, e_, x]:
+            v = st.value
+            if isinstance(v, ast.Call) and isinstance(v.func, ast.Attribute) and v.func.attr == "partition" and len(v.args) == 1 and isinstance(v.args[0], ast.Constant) and v.args[0].value == "e":
+                src = v.func.value
+                if isinstance(src, ast.Call) and isinstance(src.func, ast.Name) and src.func.id in ("str", "repr") and len(src.args) == 1 and isinstance(src.args[0], ast.Name) and src.args[0].id == tested:
+                    unpack = st
+    if unpack is None:
+        return None
+    guard = None
+    for st in iter_stmts(ifst.body):
+        if isinstance(st, ast.If) and not st.orelse and len(st.body) == 1 and isinstance(st.body[0], ast.AugAssign) and isinstance(st.body[0].op, ast.Add) \
+                and isinstance(st.body[0].target, ast.Name) and st.body[0].target.id == m and isinstance(st.body[0].value, ast.Constant) and st.body[0].value.value == ".0":
+            guard = st
+    if guard is None:
+        return None
+    terms = guard.test.values if isinstance(guard.test, ast.BoolOp) and isinstance(guard.test.op, ast.And) else [guard.test]
+    has_exp = any(isinstance(t, ast.Name) and t.id == e_ for t in terms)
+    rest = [t for t in terms if not (isinstance(t, ast.Name) and t.id == e_)]
+    if not has_exp or len(rest) != 1:
+        return None
+    t = rest[0]
+    txt = ast.unparse(t)
+    if txt in (f"'.' not in {m}", f"not '.' in {m}") or re.fullmatch(rf"{m}\.lstrip\('(\+-|-\+|-)'\)\.isdigit\(\)", txt):
+        return ("repr with `.0` appended to a bare mantissa", FLOAT_REPR_DOTTED, INT_REPR, True)
+    if txt == f"{m}.isdigit()":
+        lang_ = rf"(-?({D}+\.{D}+|[1-9]\.{D}+{EXPO})|[1-9]\.0{EXPO}|-[1-9]{EXPO})"
+        return ("repr with `.0` appended to an unsigned bare mantissa only", lang_, INT_REPR, True)
+    return None
+
+
 def find_value_printer(ctx):
     """The generator function that dispatches on isinstance(val, float/int)."""
     ix = ctx.ix
@@ -218,6 +273,8 @@ def run(ctx, rep):
             d = fl.defs.get(expr.id, [])
             fm = dotted_exponent_idiom(ifst, expr.id, d, tested)
             expr = d[0] if d else expr
+        if fm is None:
+            fm = partition_idiom(ifst, expr, tested)
         if fm is None:
             fm = formatter_language(expr, tested)
         if fm is None:
